@@ -94,7 +94,7 @@ class ElectronicControlUnit:
         :param callback:
             The callback to be removed from the timer event list
         """
-        for event in self._timer_events:
+        for event in list(self._timer_events):
             if event['callback'] == callback:
                 self._timer_events.remove( event )
         self._job_thread_wakeup()
@@ -150,7 +150,7 @@ class ElectronicControlUnit:
         :param callback:
             Function to call when message is received.
         """
-        for dic in self._subscribers:
+        for dic in list(self._subscribers):
             if dic['cb'] == callback:
                 self._subscribers.remove(dic)
 
